@@ -347,6 +347,18 @@ def c06(ctx, res):
             res.cls("name_with_several_dots")
         img = e["image"]
         want = b"".join(int(w).to_bytes(2, "big") for w in img)
+        if c.rc is None:
+            # the 60 s wall-clock watchdog fired for the compile of a small valid program. On a loaded machine that
+            # decides nothing: the same compile is repeated here, alone (the parallel part is over), with ten times
+            # the time. Only a compile that does not come back then either is reported.
+            res.cls("round_trip:compile_repeated_after_watchdog")
+            c2 = lace(ctx, ["compile", src, obj] + feat(e), cwd=d, timeout=600)
+            if c2.rc is not None:
+                c = c2
+                data = open(os.path.join(d, obj), "rb").read() if os.path.exists(os.path.join(d, obj)) else None
+                ro = lace(ctx, ["run", obj, "--minimal"] + feat(e), stdin=bytes(e["input"]), cwd=d, timeout=600) if data is not None else None
+                if ra.rc is None:
+                    ra = lace(ctx, ["run", src, "--minimal"] + feat(e), stdin=bytes(e["input"]), cwd=d, timeout=600)
         detail = {"source": e["source"], "compile": c.brief(), "reference_image": ["x%04X" % w for w in img[:40]]}
         if c.rc != 0 or data is None:
             res.violate("C06/compile-failed", "`lace compile` of a valid program failed (exit %s)" % c.rc, detail)
